@@ -110,6 +110,14 @@ def session(case, ctx):
     classes = [proto, "mutual" if mutual else "server-auth+unused-client-cert" if offer else "server-auth", "depth%d" % case["depth"], "eku" if eku else "no-eku", "frag" if frag_list else "nofrag", "aimed-zero-lead" if aim else "unaimed"]
     try:
         rc, rs = s.start()
+        if not (rc[1] == "ok" and rs[1] == "ok"):
+            # a chain larger than TLS_MAX_CERTIFICATES_SIZE (2048 bytes) is refused when it is configured: a documented capacity of the
+            # connection object, not a handshake between configured endpoints (TLCP, two intermediates and ExtKeyUsage come to about 2060)
+            sizes = [len(ch.chain_der())] + ([len(_pki(proto, case["cdepth"] - 1, "client", eku)[0].chain_der())] if cfiles else [])
+            if max(sizes) > 2048:
+                ctx.note("configuration-refused/chain-larger-than-TLS_MAX_CERTIFICATES_SIZE")
+                ctx.case(nontrivial=False, classes=classes + ["chain>2048"], ident=case)
+                return
         ctx.check(rc[1] == "ok" and rs[1] == "ok", "endpoint set-up failed: client %s server %s" % (rc, rs), "setup")
         hc, hs = s.handshake()
         if hc[0] == "timeout" or hs[0] == "timeout":
@@ -253,6 +261,14 @@ def long_connection(case, ctx):
     s = net.Session(ctx.variant, proto, files, mutual=False, seed=case["seed"])
     try:
         rc, rs = s.start()
+        if not (rc[1] == "ok" and rs[1] == "ok"):
+            # a chain larger than TLS_MAX_CERTIFICATES_SIZE (2048 bytes) is refused when it is configured: a documented capacity of the
+            # connection object, not a handshake between configured endpoints (TLCP, two intermediates and ExtKeyUsage come to about 2060)
+            sizes = [len(ch.chain_der())] + ([len(_pki(proto, case["cdepth"] - 1, "client", eku)[0].chain_der())] if cfiles else [])
+            if max(sizes) > 2048:
+                ctx.note("configuration-refused/chain-larger-than-TLS_MAX_CERTIFICATES_SIZE")
+                ctx.case(nontrivial=False, classes=classes + ["chain>2048"], ident=case)
+                return
         ctx.check(rc[1] == "ok" and rs[1] == "ok", "endpoint set-up failed: client %s server %s" % (rc, rs), "setup")
         hc, hs = s.handshake()
         if hc[0] == "timeout" or hs[0] == "timeout":
